@@ -235,7 +235,7 @@ func (g *genCfg) pick(rng *rand.Rand, o, d *Obj) (Call, string) {
 		case "SetValidityPolicy":
 			return Call{"op": "SetValidityPolicy", "mode": []string{"none", "ok", "bad"}[rng.Intn(3)]}, "st"
 		case "SetClosure":
-			return Call{"op": []string{"SetPresentationPolicy", "SetEqualityPolicy", "SetUnmarshaler", "SetMarshaler"}[rng.Intn(4)], "on": rng.Intn(2) == 0}, "st"
+			return Call{"op": []string{"SetPresentationPolicy", "SetEqualityPolicy", "SetUnmarshaler", "SetMarshaler", "SetLessFunc"}[rng.Intn(5)], "on": rng.Intn(2) == 0}, "st"
 		case "Marshal":
 			if L+1 > g.maxLen {
 				continue
